@@ -150,6 +150,51 @@ for k, v in EXTRA13.items():
     if k in P:
         P[k]["text"] += v
 
+# round 14 (DESIGN.md 8.6)
+EXTRA14 = {
+ "C02": " Error values are compared only with nil, sentinels or comparable static types on the print tree (R02.5).",
+ "C03": " The package-level fallback writer set is only replaced by a freshly built set (R03.4).",
+ "C04": " Every round of the attribute loop prints the member's own value (R04.12).",
+ "C05": " Every round of the attribute loop prints the member's own value (R05.12); foreign marshaller tests come after error/Stringer/ToString (R05.2); R07.2 is an obligation here.",
+ "C06": " Foreign marshaller tests come after error/Stringer/ToString (R06.2); R01.1 is an obligation here.",
+ "C09": " R08.6 (stateless writer wrappers) is an obligation here.",
+ "C10": " Nothing deletes from a logger's child registry (R10.5).",
+ "C11": " R10.3, R02.2 and R13.1 are obligations here.",
+ "C12": " The restore function of SaveFlagsAndMod stores the saved flag word only (R12.9); R02.3 is an obligation here.",
+ "C13": " R12.1 is an obligation here.",
+ "C14": " R04.6 (order of the record printer's steps on every path) is an obligation here.",
+ "C15": " R02.1 and R02.2 are obligations here.",
+ "C17": " Registration options capture their arguments unedited (R17.5); ParseLevel fails only after the name table missed (R17.2).",
+ "C18": " Whether a mapping loop of checkpath runs does not depend on the path (R18.8).",
+ "C20": " Every unit suffix is followed by its integer digits on every path (R20.2).",
+}
+for k, v in EXTRA14.items():
+    if k in P:
+        P[k]["text"] += v
+
+# round 15 (DESIGN.md 8.6)
+EXTRA15 = {
+ "C01": " In a gated entry point no return is reachable before the admission test was asked (R01.2); R13.1 is an obligation here.",
+ "C02": " R12.1 and R17.6 are obligations here.",
+ "C04": " Loops over a list parameter fetch the element of the round (R04.8); short JSON escapes are JSON's letters for their bytes (R04.1); argument pairing (R07.1) and the member separator's independence of the member (R04.9).",
+ "C05": " Loops over a list parameter fetch the element of the round (R05.8); argument pairing (R07.1).",
+ "C07": " Argument pairing in argsToAttrs (R07.1); R10.3 (an option argument is consumed) and R10.9 are obligations here.",
+ "C08": " R02.7 and R03.3 (operation tables of the writer set) are obligations here.",
+ "C09": " Source.Extract stores each of its fields on every path (R09.1).",
+ "C10": " The search loop of findSublogger is left early only when something was found (R10.5); an option argument of newentry is consumed (R10.3).",
+ "C11": " R04.9 (member separator independent of the member) is an obligation here.",
+ "C12": " No swallowing deferred recover between the entry points and the terminating function (R12.1); the tag-width setter stores no width outside the tag tables (R06.3).",
+ "C13": " The fan-out Write and the sink do not call themselves (R13.1).",
+ "C14": " A prefix tested with HasPrefix is cut at its own length (R14.6); package-level forwarders pass their parameters without arithmetic (R14.3).",
+ "C15": " Every round of WithAttrs converts its attribute (R15.4); R05.10, R05.5 and R05.1 are obligations here.",
+ "C16": " Constant layouts that can reach the layout field in SetTimeFormat have nanosecond precision and a zone (R16.4); R02.3 is an obligation here.",
+ "C17": " A tag-table entry is returned only on the hit edge of its lookup (R17.6).",
+ "C18": " The regexp list is rewritten only on the equal edge of the comparison with the argument, never emptied with clear() (R18.6); prefix cuts agree with the prefix tested (R18.2).",
+}
+for k, v in EXTRA15.items():
+    if k in P:
+        P[k]["text"] += v
+
 checks, na = [], []
 ids = [json.loads(l)["id"] for l in open(os.path.join(V, "properties.jsonl"))]
 for pid in ids:
